@@ -171,7 +171,8 @@ package proxy
 //@ spec func specNoConditionals(h any) bool = !in(h, "If-None-Match") && !in(h, "If-Modified-Since") && !in(h, "If-Match") && !in(h, "If-Unmodified-Since")
 
 // The request that goes to the origin for a stale entry carries the validators stored
-// with that entry - exactly them, nothing the client sent.  A fresh entry is served
+// with that entry - exactly them, nothing the client sent - and it is a copy with a header
+// map of its own: the client's request (used again for a direct fetch) never gets them.  A fresh entry is served
 // without any origin request.
 //@ props C05 C06 C09 C16 C15
 //@ func fetcher.getFromCacheOrFetch
@@ -182,6 +183,7 @@ package proxy
 //@   ghost callsite-requires [C06] fetchUpstream old(specNoConditionals(req.Header)) && len(cached.Metadata.Object.ETag) == 0 ==> !in(arg_req.Header, "If-None-Match")
 //@   ghost callsite-requires [C06] fetchUpstream cached.Metadata.Object.LastModified != 0 ==> in(arg_req.Header, "If-Modified-Since") && len(arg_req.Header["If-Modified-Since"]) == 1 && sid(arg_req.Header["If-Modified-Since"][0]) == timefmt(cached.Metadata.Object.LastModified)
 //@   ghost callsite-requires [C06] fetchUpstream old(specNoConditionals(req.Header)) ==> !in(arg_req.Header, "If-Match") && !in(arg_req.Header, "If-Unmodified-Since")
+//@   ghost callsite-requires [C06] fetchUpstream arg_req != req && arg_req.Header != req.Header
 //@   ghost callsite-requires [C06] handleCacheMiss old(specNoConditionals(req.Header)) ==> specNoConditionals(arg_req.Header)
 //@   ensures [C09] result1 == nil ==> specFetchShape(result0) && result0.Type == 0
 //@   ensures [C09] result1 != nil ==> iserr(result1, ErrNotCacheable) || upfails > old(upfails)
